@@ -2,6 +2,7 @@ import PeptVerif.Model.Combinatoric
 import PeptVerif.Spec.Combinatoric
 import PeptVerif.Lemmas.Combinatoric
 import PeptVerif.Lemmas.CombinatoricSpec
+import PeptVerif.Lemmas.CombinatoricParse
 /-!
 # C19 - combinatorial expansions are exactly the combinatorics of the modified residues
 
@@ -156,6 +157,84 @@ theorem combinations_with_replacement_standard (a : Annotation) (size : Option N
 
 example : specPerms 2 [10, 20, 20] = [[10, 20], [10, 20], [20, 10], [20, 20], [20, 10], [20, 20]] := by decide
 
+/-! ## every result parses; the text the Python builds re-parses to the assembled annotation
+
+On top of the parser / serializer models and the round-trip theorem of C01 (`Pept.parse`, `Pept.serialize`,
+`Pept.canon`, `parse_serialize`). `canon a` is the decidable well-formedness predicate of Spec/ProForma.lean (the image
+of the grammar); sizes are ≥ 1 (size 0 yields one annotation with an empty sequence, which is not canonical).
+`permutationsText` etc. (Model/CombinatoricText.lean) are the literal Python: serialize start, pieces and end,
+enumerate the piece texts, concatenate, `parse`. -/
+
+/-- every result of the four expansions of a canonical annotation is canonical -/
+theorem results_canon (a : Annotation) (hc : canon a = true) (size : Option Nat) (hk : 1 ≤ sizeOf a size) :
+    (∀ r ∈ permutations a size, canon r = true) ∧ (∀ r ∈ product a size, canon r = true) ∧
+    (∀ r ∈ combinations a size, canon r = true) ∧ (∀ r ∈ combinationsWithReplacement a size, canon r = true) := by
+  rw [permutations_spec, product_spec, combinations_spec, combinations_with_replacement_spec]
+  exact ⟨canon_of_enum @permsK @mem_permsK a hc _ hk, canon_of_enum @prodK @mem_prodK a hc _ hk,
+    canon_of_enum @combsK @mem_combsK a hc _ hk, canon_of_enum @cwrK @mem_cwrK a hc _ hk⟩
+
+/-- **every result parses**: its serialization (either `include_plus` setting, any mix) parses back to itself -/
+theorem results_parse (plus : Plus) (a : Annotation) (hc : canon a = true) (size : Option Nat) (hk : 1 ≤ sizeOf a size)
+    (r : Annotation)
+    (hr : r ∈ permutations a size ∨ r ∈ product a size ∨ r ∈ combinations a size ∨ r ∈ combinationsWithReplacement a size) :
+    parse true (serialize plus r) = .ok (.single r) := by
+  obtain ⟨h1, h2, h3, h4⟩ := results_canon a hc size hk
+  apply parse_serialize
+  rcases hr with h | h | h | h
+  · exact h1 r h
+  · exact h2 r h
+  · exact h3 r h
+  · exact h4 r h
+
+/-- the string the Python puts together for a selection of pieces, `serialize_start + ''.join(piece texts) + serialize_end`,
+is the serialization of the assembled annotation -/
+theorem expansionText_eq (plus : Plus) (a : Annotation) (hc : canon a = true) (sel : List Annotation)
+    (h : ∀ p ∈ sel, p ∈ pieces a) :
+    expansionText plus a sel = serialize plus (assemble a (sel.map residues)) := expansionText_eq' plus a hc sel h
+
+/-- re-parsing that string gives exactly the assembled annotation: `assemble` *is* `parse(start + pieces + end)` -/
+theorem reparse_eq (a : Annotation) (hc : canon a = true) (sel : List Annotation) (h : ∀ p ∈ sel, p ∈ pieces a)
+    (hne : sel ≠ []) : reparse a sel = .ok (.single (assemble a (sel.map residues))) := reparse_eq' a hc sel h hne
+
+/-- the literal text-level `permutations` returns exactly the annotation-level results (none fails to parse, none is a
+multi-chain object) -/
+theorem permutationsText_eq (a : Annotation) (hc : canon a = true) (size : Option Nat) (hk : 1 ≤ sizeOf a size) :
+    permutationsText a size = (permutations a size).map fun r => .ok (.single r) :=
+  text_eq_of_enum @permsK @mem_permsK @permsK_map a hc _ hk
+
+theorem productText_eq (a : Annotation) (hc : canon a = true) (rep : Option Nat) (hk : 1 ≤ sizeOf a rep) :
+    productText a rep = (product a rep).map fun r => .ok (.single r) :=
+  text_eq_of_enum @prodK @mem_prodK @prodK_map a hc _ hk
+
+theorem combinationsText_eq (a : Annotation) (hc : canon a = true) (size : Option Nat) (hk : 1 ≤ sizeOf a size) :
+    combinationsText a size = (combinations a size).map fun r => .ok (.single r) :=
+  text_eq_of_enum @combsK @mem_combsK @combsK_map a hc _ hk
+
+theorem combinationsWithReplacementText_eq (a : Annotation) (hc : canon a = true) (size : Option Nat)
+    (hk : 1 ≤ sizeOf a size) :
+    combinationsWithReplacementText a size = (combinationsWithReplacement a size).map fun r => .ok (.single r) :=
+  text_eq_of_enum @cwrK @mem_cwrK @cwrK_map a hc _ hk
+
+/-- **string in, strings out** (sequence/combinatoric.py): on the text of a canonical annotation (written with any `+`
+convention) the four module-level functions return the serializations of the annotation-level results -/
+theorem combinatoric_py_strings (plus : Plus) (a : Annotation) (hc : canon a = true) (size : Option Nat)
+    (hk : 1 ≤ sizeOf a size) :
+    permutationsStr (serialize plus a) size = .ok ((permutations a size).map (serialize (constPlus false))) ∧
+    productStr (serialize plus a) size = .ok ((product a size).map (serialize (constPlus false))) ∧
+    combinationsStr (serialize plus a) size = .ok ((combinations a size).map (serialize (constPlus false))) ∧
+    combinationsWithReplacementStr (serialize plus a) size =
+      .ok ((combinationsWithReplacement a size).map (serialize (constPlus false))) :=
+  ⟨expandStr_eq _ permutations plus a hc size (permutationsText_eq a hc size hk),
+   expandStr_eq _ product plus a hc size (productText_eq a hc size hk),
+   expandStr_eq _ combinations plus a hc size (combinationsText_eq a hc size hk),
+   expandStr_eq _ combinationsWithReplacement plus a hc size (combinationsWithReplacementText_eq a hc size hk)⟩
+
+example : canon exA = true ∧ 1 ≤ sizeOf exA (some 2) := by decide +kernel
+
+example : permutationsStr "[Acetyl]-PE[3]T".toList (some 2) =
+    .ok ["[Acetyl]-PE[3]".toList, "[Acetyl]-PT".toList, "[Acetyl]-E[3]P".toList, "[Acetyl]-E[3]T".toList,
+         "[Acetyl]-TP".toList, "[Acetyl]-TE[3]".toList] := by decide +kernel
+
 /-- the i-th entry of `residues a` is the i-th residue with the mods it carries -/
 theorem residues_getElem (a : Annotation) (i : Nat) (h : i < (residues a).length) :
     (residues a)[i] = (a.seq[i]'(by simpa [residues] using h), modsAt a i) := by
@@ -183,13 +262,10 @@ theorem wrap_globals_unchanged (a : Annotation) (sel : List (Char × List Mod)) 
     (wrap a sel).unknown = a.unknown ∧ (wrap a sel).nterm = a.nterm ∧ (wrap a sel).cterm = a.cterm ∧
     (wrap a sel).charge = a.charge ∧ (wrap a sel).adducts = a.adducts ∧ (wrap a sel).intervals = none := by
   simp only [expandDomain, Bool.and_eq_true] at h
-  obtain ⟨⟨⟨⟨⟨⟨⟨⟨⟨h1, h2⟩, h3⟩, h4⟩, h5⟩, h6⟩, h7⟩, h8⟩, _⟩, _⟩ := h
-  have hc : a.charge ≠ some 0 := by
-    intro hc
-    simp [okCharge, hc] at h8
+  obtain ⟨⟨⟨⟨⟨⟨⟨⟨⟨h1, h2⟩, h3⟩, h4⟩, h5⟩, h6⟩, h7⟩, _⟩, _⟩, _⟩ := h
   simp only [wrap]
   refine ⟨normList_id _ h3, normList_id _ h2, normList_id _ h1, normList_id _ h4, normList_id _ h5, normList_id _ h6,
-    normCharge_id _ hc, normList_id _ h7, trivial⟩
+    trivial, normList_id _ h7, trivial⟩
 
 example : expandDomain exA = true := by decide
 
